@@ -66,6 +66,139 @@ def closure_ret(F, cexpr):
     return cb, rets
 
 
+def subst(e, m):
+    """replace sub-expressions by the mapping m (exact tuple match)"""
+    if not isinstance(e, tuple):
+        return e
+    if e in m:
+        return m[e]
+    return tuple(subst(x, m) for x in e)
+
+
+ELEMENT_WRAPPERS = ('Iterator::collect', 'Itertools::collect_vec', 'IntoIterator::into_iter', 'Vec::into_iter', 'Vec::iter', 'into_iter', 'iter', 'Iterator::by_ref')
+
+
+def beta_map(F, e, depth=0):
+    """An element drawn from `… map(X, |x| body) …` is body[x := element of X]: rewrite next(collect(map(X, clo))) into the closure's
+    (single, capture-free) return expression over next(X), so that a projection done inside a map closure and one done at the use site
+    have the same form."""
+    if not isinstance(e, tuple) or depth > 6:
+        return e
+    if not e:
+        return e
+    e = tuple(beta_map(F, x, depth) for x in e) if not (e and e[0] == 'closure') else e
+    if is_call(e, 'Iterator::next') and len(e[2]) >= 1:
+        x = e[2][0]
+        while is_call(x, *ELEMENT_WRAPPERS) and len(x[2]) == 1:
+            x = x[2][0]
+        if is_call(x, 'Iterator::map') and len(x[2]) == 2 and x[2][1][0] == 'closure':
+            src, clo = x[2]
+            cb = F.closure(clo[1])
+            if cb is not None:
+                rets = [r for _, r in Resolver(cb).return_expr()]
+                if len(rets) == 1 and rets[0][0] != 'phi' and not any(isinstance(y, tuple) and y[:1] == ('upvar',) for y in walk(rets[0])):
+                    arg = ('param', cb.arg_names()[-1])
+                    body = subst(rets[0], {arg: ('call', 'Iterator::next', (src,) + tuple(e[2][1:]))})
+                    return beta_map(F, body, depth + 1)
+    return e
+
+
+def apply_closure(F, clo, arg):
+    """closure literal applied to one argument: its single return expression with the parameter and the captured variables substituted; None if not possible"""
+    cb = F.closure(clo[1])
+    if cb is None:
+        return None
+    rets = [r for _, r in Resolver(cb).return_expr()]
+    if len(rets) != 1 or rets[0][0] == 'phi':
+        return None
+    m = {('param', cb.arg_names()[-1]): arg}
+    idx = cb.upvar_index()
+    for x in walk(rets[0]):
+        if isinstance(x, tuple) and x[:1] == ('upvar',):
+            i = idx.get(x[1])
+            if i is None or i >= len(clo[2]):
+                return None
+            m[x] = clo[2][i]
+    return subst(rets[0], m)
+
+
+def beta_option_map(F, e, depth=0):
+    """Option::map(x, |v| body) / Result::map(x, |v| body)  ->  body[v := payload of x] (the resolver already identifies x with its payload)"""
+    if not isinstance(e, tuple) or not e or depth > 6:
+        return e
+    if e[0] == 'closure':
+        return e
+    e = tuple(beta_option_map(F, x, depth) for x in e)
+    if is_call(e, 'Option::map', 'Result::map') and len(e[2]) == 2 and e[2][1][0] == 'closure':
+        r = apply_closure(F, e[2][1], e[2][0])
+        if r is not None:
+            return beta_option_map(F, r, depth + 1)
+    return e
+
+
+def vec_elements(F, b, R, v):
+    """Element expressions of a vector value v, each written over `Iterator::next(source)` items:
+       * collect(map(src, closure))  -> [closure body applied to next(src)]
+       * collect(src)                -> [next(src)]
+       * a local Vec (new / with_capacity) -> the values pushed into that object anywhere in b
+    None if v is neither."""
+    x = v
+    while is_call(x, 'Iterator::collect', 'Itertools::collect_vec', 'Vec::as_slice') and len(x[2]) == 1:
+        x = x[2][0]
+    if is_call(x, 'Iterator::map') and len(x[2]) == 2 and x[2][1][0] == 'closure':
+        r = apply_closure(F, x[2][1], ('call', 'Iterator::next', (x[2][0],)))
+        return None if r is None else [r]
+    if is_call(x, 'Vec::new', 'Vec::with_capacity'):
+        out = []
+        for bb, t in b.calls():
+            c = Callee(t['func'])
+            if c.name == 'push' and c.self_base == 'Vec':
+                a = R.call_args(bb)
+                if a[0] == x:
+                    out.append(a[1])
+        return out
+    if x is not v:
+        return [('call', 'Iterator::next', (x,))]
+    return None
+
+
+def holds_cmp(lits, op, left, right=None):
+    """Some guard literal states `left op right` (op in Lt/Le/Gt/Ge/Eq/Ne), in any of its equivalent spellings:
+    negated complement (`!(a >= b)`), swapped operands (`b > a`), or the PartialOrd/PartialEq method forms."""
+    comp = {'Lt': 'Ge', 'Ge': 'Lt', 'Le': 'Gt', 'Gt': 'Le', 'Eq': 'Ne', 'Ne': 'Eq'}
+    swap = {'Lt': 'Gt', 'Gt': 'Lt', 'Le': 'Ge', 'Ge': 'Le', 'Eq': 'Eq', 'Ne': 'Ne'}
+    meth = {'PartialOrd::lt': 'Lt', 'PartialOrd::le': 'Le', 'PartialOrd::gt': 'Gt', 'PartialOrd::ge': 'Ge', 'PartialEq::eq': 'Eq', 'PartialEq::ne': 'Ne'}
+    for l in lits:
+        if l[0] not in ('true', 'false'):
+            continue
+        x = l[1]
+        if x[0] == 'bin' and x[1] in comp:
+            o, a, b_ = x[1], x[2], x[3]
+        elif x[0] == 'call' and x[1] in meth and len(x[2]) == 2:
+            o, a, b_ = meth[x[1]], x[2][0], x[2][1]
+        else:
+            continue
+        if l[0] == 'false':
+            o = comp[o]
+        for (oo, aa, bb_) in ((o, a, b_), (swap[o], b_, a)):
+            if oo == op and s(aa) == s(left) and (right is None or s(bb_) == s(right)):
+                return True
+    return False
+
+
+def cmp_facts(lits):
+    """Comparison facts implied by the guard literals, in every spelling: (op, a, b) meaning `a op b` holds (see mir.comparison_spellings)."""
+    from ..mir import comparison_spellings
+    out = []
+    for l in lits:
+        for v in [tuple(l[:2])] + comparison_spellings(tuple(l[:2])):
+            if v[0] == 'true' and v[1][0] == 'bin' and v[1][1] in ('Lt', 'Le', 'Gt', 'Ge', 'Eq', 'Ne'):
+                f = (v[1][1], v[1][2], v[1][3])
+                if f not in out:
+                    out.append(f)
+    return out
+
+
 def filter_chain(e):
     """If e is an element drawn from collect(… filter(src, closure) …), return (src, [closures of filters])."""
     filters = []
@@ -130,6 +263,7 @@ def check_removals(ctx, rule, childless_rule=None):
                     verdict = 'bad'
         # ---- J1-filter: element of filter(children(p), |c| c.state.is_infeasible())
         if verdict is None and c.name in ('remove_child', 'try_remove_child'):
+            l = beta_map(F, l)
             src, filters = filter_chain(l)
             if src is not None and filters:
                 okf = False
